@@ -68,8 +68,10 @@ def _normalise(node):
 
 
 class Crate:
-    def __init__(self, path, text=None):
-        if text is not None:
+    def __init__(self, path, text=None, data=None):
+        if data is not None:
+            d = data
+        elif text is not None:
             d = json.loads(text)
         else:
             with open(path) as fh:
@@ -96,8 +98,12 @@ class Program:
         paths = [os.path.join(fdir, "lace-lib.json"), os.path.join(fdir, "lace-bin.json")]
         texts = [open(p_).read() for p_ in paths]
         texts, self.aliases = alias.canonicalise(texts)
-        self.lib = Crate(paths[0], texts[0])
-        self.bin = Crate(paths[1], texts[1])
+        # helper-extraction-robust facts: functions the reference tree does not know are inlined at their call sites
+        from . import inline
+        dicts = [json.loads(t_) for t_ in texts]
+        self.inlined = inline.inline_new(dicts)
+        self.lib = Crate(paths[0], data=dicts[0])
+        self.bin = Crate(paths[1], data=dicts[1])
         self.header = json.load(open(os.path.join(fdir, "header.json")))
         self.fns = {}
         self.fns.update(self.lib.fns)
